@@ -75,11 +75,15 @@ def scen_push_ts_input(cfg):
         c.push_ts_input(sent, hdr)
         if cfg["eps"] != 0:  # header of another episode: dropped
             return {"stale-episode message changes nothing": (len(c.q_ts_input), len(c.q_zip_delay), len(c.delays)) == n_before and not rec.tasks}
+        accepted = "an announced arrival of the current episode is accepted, also by a connection that is reset but not yet started (its sender was started first)"
+        if (len(c.q_ts_input), len(c.q_zip_delay), len(c.delays)) == n_before:
+            return {accepted: False}
         recv = c._prev_recv_sc
         d = c.delays[0]
         m = sent + d
         big = m if (m >= prev) else prev  # harness-side max (forks like the code does)
         return {
+            accepted: True,
             "recv == round6(max(sent + delay, previous recv))": _allv(V, [recv * 1000000 <= big * 1000000 + 0.5 + (0 if V.symbolic else 1e-6), recv * 1000000 > big * 1000000 - 0.5 - (0 if V.symbolic else 1e-6)]),
             "FIFO: recv >= previous recv": recv >= prev,
             "causality (as stated): recv >= sent": recv >= sent,
